@@ -70,6 +70,7 @@ def run(ctx: common.Run):
     check_predicates_pure(ctx, cirq)
     check_commutes_tolerance(ctx, cirq)
     check_commutes_pauli_copies(ctx, cirq)
+    check_interchangeable_qubits(ctx, cirq)
     check_operation_predicates(ctx, cirq, n * 6)
 
 
@@ -179,6 +180,11 @@ def check_controlled(ctx, cirq, n):
         elif mode == 'shortcut':
             sub = rng.choice([cirq.X, cirq.Y, cirq.Z, cirq.CZ, cirq.CX, cirq.X**0.5, cirq.Z**rng.choice([0.25, -0.5, 1.0]),
                               cirq.CZ**0.5, cirq.XPowGate(exponent=1, global_shift=0.5), cirq.ZPowGate(global_shift=-0.5)])
+            if rng.random() < 0.5:
+                # the families with a controlled() of their own, at exponent / shift pairs whose global phase exp(i pi e s) is -1, +-i, 1 or generic
+                F = rng.choice([cirq.XPowGate, cirq.ZPowGate, cirq.YPowGate, cirq.CZPowGate, cirq.CXPowGate, cirq.CCXPowGate, cirq.CCZPowGate])
+                e, sh = rng.choice([(1, 1), (1, -1), (2, 0.5), (0.5, 2), (3, 1), (1, 0.5), (1, 2), (0.5, -0.5), (0.3, 0.25), (1, 0), (0.5, 1), (2, 1.5)])
+                sub = F(exponent=e, global_shift=sh)
             tdims = [2] * cirq.num_qubits(sub)
         else:
             k = rng.choice([1, 1, 2])
@@ -683,6 +689,45 @@ def check_commutes_pauli_copies(ctx, cirq):
                     if got is not None and bool(got) != want:
                         ctx.report_witness(f'predicate:commutes:pauli-copy:{form}', f'cirq.commutes({x!r}, {tname}) answers {got} although the matrices ' + ('commute' if want else 'do not commute'),
                                            {'lines': [{'a': repr(x), 'b': repr(y), 'twin': tname}], 'impl_out': [bool(got)], 'spec_out': [want], 'theorem_or_correspondence': 'commutes_sound'})
+
+
+def check_interchangeable_qubits(ctx, cirq):
+    """an operation equals the same gate on permuted qubits (==, approx_eq, equal_up_to_global_phase) only when the matrices agree:
+    gates that declare some of their qubits interchangeable, at the parameter values where the symmetry appears and disappears"""
+    rng = ctx.substream('interchangeable')
+    pi = np.pi
+    gates = []
+    special = [0, pi / 2, -pi / 2, pi, -pi, 0.3, 1.1]
+    phases = [0, pi, 0.4, -1.2, 2 * pi, pi / 2]
+    for th in special:
+        for ze in phases:
+            for ch in phases:
+                gates.append(cirq.PhasedFSimGate(theta=th, zeta=ze, chi=ch, gamma=rng.choice([0, 0.3]), phi=rng.choice([0, 0.7])))
+    gates += [cirq.FSimGate(0.3, 0.2), cirq.CZ, cirq.CZ**0.3, cirq.SWAP**0.4, cirq.ISWAP**0.6, cirq.XX**0.3, cirq.YY**0.2, cirq.ZZ**0.7, cirq.CNOT, cirq.CCX**0.5, cirq.CCZ**0.3, cirq.CSWAP,
+              cirq.PhasedISwapPowGate(phase_exponent=0.2, exponent=0.3), cirq.PhasedISwapPowGate(phase_exponent=0.5, exponent=0.3), cirq.PhasedISwapPowGate(phase_exponent=0, exponent=0.3),
+              cirq.TwoQubitDiagonalGate([0.1, 0.2, 0.2, 0.5]), cirq.TwoQubitDiagonalGate([0.1, 0.2, 0.3, 0.5]), cirq.ThreeQubitDiagonalGate([0.1, 0.2, 0.2, 0.5, 0.2, 0.5, 0.5, 0.9]),
+              cirq.ControlledGate(cirq.CZ**0.3), cirq.ControlledGate(cirq.SWAP**0.3), cirq.QubitPermutationGate([1, 0, 2]), cirq.MatrixGate(cirq.unitary(cirq.CZ))]
+    if ctx.tier == 'quick':
+        gates = gates[ctx.seed % 2::2] + gates[-22:]
+    for g in gates:
+        k = cirq.num_qubits(g)
+        qs = cirq.LineQubit.range(k)
+        base = g.on(*qs)
+        u0 = cirq.Circuit(base).unitary(qubit_order=qs)
+        for perm in itertools.permutations(qs):
+            if list(perm) == list(qs):
+                continue
+            other = g.on(*perm)
+            u1 = cirq.Circuit(other).unitary(qubit_order=qs)
+            same = np.allclose(u0, u1, atol=1e-6)
+            ctx.case(['interchangeable', repr(g), [q.x for q in perm]], same)
+            for name, val, ok in (('eq', base == other, same), ('hash', base == other and hash(base) == hash(other), same),
+                                  ('approx_eq', cirq.approx_eq(base, other, atol=1e-9), same),
+                                  ('equal_up_to_global_phase', cirq.equal_up_to_global_phase(base, other, atol=1e-9), phase_equal(u0, u1, atol=1e-5))):
+                ctx.count('check', f'interchangeable:{name}:{bool(val)}')
+                if val and not ok:
+                    ctx.report_witness(f'predicate:{name}:permuted-qubits', f'{name} holds between an operation and the same gate on permuted qubits although the matrices differ',
+                                       {'lines': [{'gate': repr(g), 'qubits': [q.x for q in perm]}], 'impl_out': ['True'], 'spec_out': ['matrices differ'], 'theorem_or_correspondence': 'equality_sound'})
 
 
 def check_predicates_pure(ctx, cirq):
